@@ -571,21 +571,22 @@ type sentResp struct {
 }
 
 type runner struct {
-	e      *lib.Env
-	ok     oraclekeeper.Keeper
-	sk     servicekeeper.Keeper
-	h      History
-	np     int
-	feeds  []feedRT
-	ctxs   *lib.Interner
-	lastBC map[string]uint64                   // ctx hex -> last batch counter seen started
-	sent   map[string]map[uint64][]sentResp    // ctx hex -> batch -> accepted responses with output
-	lastID map[string]string                   // "ctx|provider" -> last request id seen
-	c      lib.Case
-	terms  []string
-	stats  map[string]int
-	done   map[int]int // feed -> number of values produced
-	minLH  map[int]uint64
+	e       *lib.Env
+	ok      oraclekeeper.Keeper
+	sk      servicekeeper.Keeper
+	h       History
+	np      int
+	feeds   []feedRT
+	ctxs    *lib.Interner
+	lastBC  map[string]uint64                // ctx hex -> last batch counter seen started
+	sent    map[string]map[uint64][]sentResp // ctx hex -> batch -> accepted responses with output
+	lastID  map[string]string                // "ctx|provider" -> last request id seen
+	c       lib.Case
+	terms   []string
+	stats   map[string]int
+	done    map[int]int // feed -> number of values produced
+	minLH   map[int]uint64
+	lastObs map[int]string // feed -> Coq term of its last observation (compression)
 }
 
 func provider(i int) int { return nCreators + i }
@@ -1075,9 +1076,24 @@ func (rn *runner) observe(code int) string {
 				vs = append(vs, lib.Pair(dataZ(v.Data, &rn.c), lib.Z(v.Timestamp.Unix())))
 			}
 		}
-		fo = append(fo, lib.Pair(lib.Z(int64(i)), lib.App("mkFobs", feedT, lib.L(vs...), lib.B(running[name]), lib.B(paused[name]), ctxT)))
+		// compressed: a feed whose observation did not change since the previous step is written None
+		// (Check.expand_from restores it)
+		fobsT := lib.App("mkFobs", feedT, lib.L(vs...), lib.B(running[name]), lib.B(paused[name]), ctxT)
+		if rn.lastObs == nil {
+			rn.lastObs = map[int]string{}
+		}
+		prev, seen := rn.lastObs[i]
+		if !seen {
+			prev = lib.App("mkFobs", "None", lib.L(), lib.B(false), lib.B(false), "None")
+		}
+		rn.lastObs[i] = fobsT
+		if fobsT == prev {
+			fo = append(fo, lib.Pair(lib.Z(int64(i)), "None"))
+		} else {
+			fo = append(fo, lib.Pair(lib.Z(int64(i)), "(Some "+fobsT+")"))
+		}
 	}
-	return lib.App("mkObs", lib.Z(int64(code)), lib.L(fo...))
+	return lib.App("mkCObs", lib.Z(int64(code)), lib.L(fo...))
 }
 
 // dataZ parses the stored string "[-]ddd.dddddddd" as the integer data * 10^8.
